@@ -6,7 +6,7 @@ from common import *
 PID = "C08"
 PROPS = "props/C08.v"
 GOTAB = ["codabar.go", "twooffive.go"]
-GOFILES = ["codabar.go", "twooffive.go"]
+GOFILES = ["codabar.go", "twooffive.go", "all.go"]
 EXTRACT = ["base", "codabar", "twooffive"]
 HANDLERS = ["h_codabar.ml", "h_twooffive.ml"]
 
@@ -119,7 +119,7 @@ def sweep_cases(tier, rng):
     return out
 
 
-def cases(tier, rng):
+def _cases0(tier, rng):
     return single_cases(tier, rng) + sweep_cases(tier, rng)
 
 
@@ -249,3 +249,21 @@ Definition case_ok (c : Z * bool * list Z * option (list Z * list bool) * option
        | _, _ => false
        end.
 """
+
+
+def extra(rep, impl_exe, model_exe, rng, tier):
+    # returned barcodes must remain what they were when other symbols are encoded afterwards
+    import held
+    return held.held_phase(rep, impl_exe, rng, ['codabar', 'tof 0', 'tof 1'], n=10 if tier == "quick" else 80)
+
+
+def cases(tier, rng):
+    lines = _cases0(tier, rng)
+    # long symbols: more than 4096 modules (the BitList's first allocation) and more than 8192
+    for n in ([380, 420, 800] if tier == "quick" else [300, 380, 400, 420, 450, 600, 800, 1200, 3000]):
+        body = "".join(rng.choice("0123456789-$:/.+") for _ in range(n))
+        lines.append("codabar %s" % (rng.choice("ABCD") + body + rng.choice("ABCD")).encode().hex())
+        d = "".join(rng.choice("0123456789") for _ in range(n + (n % 2)))
+        lines.append("tof 0 %s" % d.encode().hex())
+        lines.append("tof 1 %s" % d.encode().hex())
+    return lines
